@@ -343,6 +343,10 @@ func (st *State) check(kind, label, prop, src, where, goal string) {
 		o.Cover = func() string { return snap.script("false") }
 	}
 	st.vf.obligs = append(st.vf.obligs, o)
+	if kind == "guarded" {
+		// a statement about the ghost lock state: assuming it after a failed check would contradict what the path knows
+		return
+	}
 	st.assume(goal)
 	if st.facts == nil {
 		st.facts = map[string]bool{}
@@ -1018,7 +1022,9 @@ func (vf *VerifyFunc) step(st *State, fr *Frame, in ssa.Instruction) bool {
 		fr.idx++
 		return true
 	case *ssa.Alloc:
-		fr.regs[x] = st.alloc(x.Type().Underlying().(*types.Pointer).Elem(), x.Comment, !x.Heap)
+		// a captured variable that is assigned once here and only read by the closures that share it keeps its value
+		// whatever else runs (nobody else holds its address): treat its cell like a non-escaping local
+		fr.regs[x] = st.alloc(x.Type().Underlying().(*types.Pointer).Elem(), x.Comment, !x.Heap || writeOnceShared(x))
 		fr.idx++
 		return true
 	case *ssa.BinOp:
@@ -1183,10 +1189,12 @@ func (vf *VerifyFunc) step(st *State, fr *Frame, in ssa.Instruction) bool {
 		fr.idx++
 		return true
 	case *ssa.Lookup:
+		vf.guardCheck(st, fr, x.X, false, in)
 		fr.regs[x] = vf.lookup(st, fr, x)
 		fr.idx++
 		return true
 	case *ssa.MapUpdate:
+		vf.guardCheck(st, fr, x.Map, true, in)
 		vf.mapUpdate(st, fr, x)
 		fr.idx++
 		return true
@@ -1268,6 +1276,7 @@ func (vf *VerifyFunc) step(st *State, fr *Frame, in ssa.Instruction) bool {
 		fr.idx++
 		return true
 	case *ssa.Range:
+		vf.guardCheck(st, fr, x.X, false, in)
 		v := st.get(fr, x.X)
 		it := &Val{T: x.Type(), S: "", Tm: "range", Fs: []*Val{v}}
 		fr.regs[x] = it
@@ -1379,6 +1388,100 @@ func (vf *VerifyFunc) derefCheck(st *State, p *Val, in ssa.Instruction) {
 		lab = "nil-deref/" + d // named by the expression dereferenced, not by the line (stable under unrelated edits)
 	}
 	st.check("nopanic", lab, "C14", "nil pointer dereference", st.pos(in), not(eq(base, "0")))
+}
+
+// writeOnceShared: the cell of a captured variable that has one store (in the declaring function) and is otherwise only
+// loaded, by that function and by the closures it is bound into.
+func writeOnceShared(a *ssa.Alloc) bool {
+	stores := 0
+	var readOnly func(v ssa.Value, depth int) bool
+	readOnly = func(v ssa.Value, depth int) bool {
+		if depth > 4 || v.Referrers() == nil {
+			return false
+		}
+		for _, r := range *v.Referrers() {
+			switch x := r.(type) {
+			case *ssa.UnOp:
+				if x.Op != token.MUL {
+					return false
+				}
+			case *ssa.DebugRef:
+			case *ssa.Store:
+				if x.Addr != v || x.Val == v || depth > 0 {
+					return false // stored elsewhere, or written by a closure
+				}
+				stores++
+			case *ssa.MakeClosure:
+				g, ok := x.Fn.(*ssa.Function)
+				if !ok {
+					return false
+				}
+				for i, b := range x.Bindings {
+					if b == v {
+						if i >= len(g.FreeVars) || !readOnly(g.FreeVars[i], depth+1) {
+							return false
+						}
+					}
+				}
+			default:
+				return false
+			}
+		}
+		return true
+	}
+	return readOnly(a, 0) && stores <= 1
+}
+
+// guardCheck: map operations on a field declared `guarded T.field by lock` need the lock of the same object (C14: an
+// unsynchronised map access racing with a writer is a fatal runtime error that no recovery interceptor contains).
+func (vf *VerifyFunc) guardCheck(st *State, fr *Frame, m ssa.Value, write bool, in ssa.Instruction) {
+	if len(vf.eng.cs.Guarded) == 0 || vf.fc == nil {
+		return
+	}
+	ld, ok := m.(*ssa.UnOp)
+	if !ok || ld.Op != token.MUL {
+		return
+	}
+	fa, ok := ld.X.(*ssa.FieldAddr)
+	if !ok {
+		return
+	}
+	pt, ok := fa.X.Type().Underlying().(*types.Pointer)
+	if !ok {
+		return
+	}
+	named, ok := pt.Elem().(*types.Named)
+	if !ok {
+		return
+	}
+	sT, ok := named.Underlying().(*types.Struct)
+	if !ok || fa.Field >= sT.NumFields() {
+		return
+	}
+	for _, g := range vf.eng.cs.Guarded {
+		if named.Obj().Name() != g.Type || named.Obj().Pkg() == nil || named.Obj().Pkg().Path() != g.PkgPath || sT.Field(fa.Field).Name() != g.Field {
+			continue
+		}
+		lockIdx := -1
+		for i := 0; i < sT.NumFields(); i++ {
+			if sT.Field(i).Name() == g.Lock {
+				lockIdx = i
+			}
+		}
+		if lockIdx < 0 {
+			continue
+		}
+		base := st.get(fr, fa.X)
+		lkey, _ := vf.eng.fieldKey(pt.Elem(), lockIdx)
+		la := st.subObj(base.Tm, lkey)
+		w := sel(st.heapGet("L:w", "(Array Int Bool)"), la)
+		r := "(> " + sel(st.heapGet("L:r", "(Array Int Int)"), la) + " 0)"
+		goal, what := or(w, r), "read"
+		if write {
+			goal, what = w, "write"
+		}
+		st.check("guarded", g.Field+"-"+what, "C14", "map "+g.Type+"."+g.Field+" is accessed ("+what+") only while "+g.Lock+" is held: an unsynchronised access racing with a writer is a fatal runtime error", st.pos(in), goal)
+	}
 }
 
 // derefPath: source-level path of the pointer an instruction dereferences (x.F.G), "" when it has no simple form.
